@@ -100,6 +100,7 @@ Rq(kind, a, b, c) == [kind |-> kind, a |-> a, b |-> b, c |-> c, flaw |-> "none",
 FromSt(st) == Rq(st.op, st.a, st.b, st.c)
 StOf(r) == St(r.kind, r.a, r.b, r.c)
 RouteOK(r) == /\ r.path = PathOf(r.kind, r.a)
+              /\ r.kind \in EditKinds \cup ReadKinds \cup {"putgraph"}
               /\ IF r.flaw = "method" THEN r.m \notin Methods(Endpoint(r.kind)) ELSE r.m = ProperMethod(r.kind)
 
 (* ---------------- artifacts by value --------------------------------------- *)
@@ -151,6 +152,9 @@ IsEdit(r) == r.kind \in EditKinds
 IsRead(r) == r.kind \in ReadKinds
 KnownParam(gr, a) == a \in gr.ids /\ IsParam(gr.type[a])
 
+\* the harness encodes a Bool value as (v = 1): other values have no request of their own
+Encodable(gr, r) == ~(r.kind = "setval" /\ KnownParam(gr, r.a) /\ gr.type[r.a] = 4 /\ r.b \notin {0, 1})
+
 \* requests the contract leaves open (answered either way, never changing the graph)
 Neutral(gr, r) ==
     \/ /\ r.kind = "disconnect" /\ r.b \in gr.ids /\ r.c \in 1..4 /\ PortKind(gr.type[r.b], r.c) # "none"
@@ -159,7 +163,6 @@ Neutral(gr, r) ==
     \/ r.kind = "getart" /\ HasProducer(gr, r.a) /\ ~Evaluable(gr, ProducerNode(gr, r.a))
     \/ r.kind = "getzip" /\ \E q \in gr.prod : ~Evaluable(gr, q[2])
     \* generator bounds of GraphEdit, not part of the contract
-    \/ r.kind = "setval" /\ KnownParam(gr, r.a) /\ gr.type[r.a] = 4 /\ r.b \notin {0, 1}
     \/ /\ r.kind = "connectarr" /\ r.a \in gr.ids /\ r.b \in gr.ids /\ r.a # r.b /\ HasArr(gr.type[r.b])
        /\ Len(gr.arr[r.b]) >= 13
     \/ r.kind = "create" /\ r.a \in NodeTypes /\ Cardinality(gr.ids) >= MaxNodes
@@ -240,7 +243,7 @@ EditPool ==
     \cup {Rq("connectarr", a, b, 0) : a \in NodesPlus, b \in NodesPlus}
     \cup {Rq("disconnect", 0, b, c) : b \in NodesPlus, c \in 1..4}
     \cup UNION {{Rq("disconnectarr", 0, b, c) : c \in 1..(ArrLen(b) + 1)} : b \in NodesPlus}
-    \cup {Rq(op, a, b, 0) : op \in {"setval", "setname", "setdesc"}, a \in NodesPlus, b \in {0, 1, 2}}
+    \cup {r \in {Rq(op, a, b, 0) : op \in {"setval", "setname", "setdesc"}, a \in NodesPlus, b \in {0, 1, 2}} : Encodable(g, r)}
     \cup {Rq("setproducer", a, b, 0) : a \in NodesPlus, b \in {1, 2}}
     \cup {Rq("setmeta", a, b, 0) : a \in 1..3, b \in {1, 2}}
     \cup {Rq("delmeta", a, 0, 0) : a \in 1..3}
@@ -288,11 +291,12 @@ AllRequests == EditPool \cup ReadPool \cup Flawed \cup PutPool
 
 (* ---------------- the state machine ---------------------------------------- *)
 \* a processing chain in which single-port and array-port cycles are one request away:
-\* Text(2) <- Fmt(1).S <- Concat(0) <- String(3);  "connect 1 -> 0.Sep" and "connectarr 1 -> 0" would close a cycle
+\* Text(2) <- Fmt(1).S <- Concat(0) <- String(3);  "connect 1 -> 0.Sep" and "connectarr 1 -> 0" would close a cycle;
+\* Text(4) is the producer of file2 but has no input yet (its artifact cannot be evaluated)
 PreludeLoop ==
     <<St("create", 10, 0, 0), St("create", 11, 0, 0), St("create", 14, 0, 0), St("create", 1, 0, 0),
       St("connect", 0, 1, 4), St("connect", 1, 2, 1), St("setproducer", 2, 1, 0), St("connectarr", 3, 0, 0),
-      St("setval", 3, 1, 0)>>
+      St("setval", 3, 1, 0), St("create", 14, 0, 0), St("setproducer", 4, 2, 0)>>
 
 \* hist holds REQUESTS here: the prelude steps as their proper requests, then one GET /graph (so that the
 \* whole-graph POST variants have a non-trivial graph to re-post or to corrupt)
@@ -314,16 +318,28 @@ Step(r) ==
 HNext == Len(hist) < PLen + Depth /\ \E r \in AllRequests : Step(r)
 HSpec == HInit /\ [][HNext]_hvars
 
-\* simulation: one random representative per weighted class (valid edits three times as likely)
-Pool(cls) ==
-    CASE cls \in {1, 2, 3} -> ValidEdits
-      [] cls = 4 -> InvalidEdits \cup NeutralEdits
-      [] cls = 5 -> ReadPool
-      [] OTHER -> Flawed \cup PutPool
+\* simulation: one random representative per weighted class (valid edits three times as likely than invalid or
+\* neutral edits, reads, malformed requests / whole-graph posts)
 SimNext ==
     /\ Len(hist) < PLen + Depth
-    /\ \E cls \in 1..6 : LET S == Pool(cls) IN S # {} /\ Step(RandomElement(S))
+    /\ LET P == EditPool
+           V == {r \in P : Class(g, r) = "valid"}
+           F == MethodFlaws(V, P) \cup BodyFlaws(V, P) \cup PutPool
+       IN \E cls \in 1..6 :
+             LET S == CASE cls \in {1, 2, 3} -> V [] cls = 4 -> P \ V [] cls = 5 -> ReadPool [] OTHER -> F
+             IN S # {} /\ Step(RandomElement(S))
 SimSpec == HInit /\ [][SimNext]_hvars
+
+\* evaluate - edit - evaluate: GET /producer/value (fills the caches), one valid edit or whole-graph post, the same
+\* GET again: the second answer must be the from-scratch artifact of the edited graph
+Producers == {q[1] : q \in g.prod}
+SandwichNext ==
+    \/ /\ Len(hist) = PLen /\ \E f \in Producers : Step(Rq("getart", f, 0, 0))
+    \/ /\ Len(hist) = PLen + 1 /\ \E r \in ValidEdits \cup PutPool : Step(r)
+    \/ /\ Len(hist) = PLen + 2 /\ Step(hist[PLen + 1])
+SandwichSpec == HInit /\ [][SandwichNext]_hvars
+EmitSandwich == Len(hist) < PLen + 3 \/ PrintT(ToJson([steps |-> hist]))
+ViewSandwich == <<g, snap, hist>>
 
 (* ---------------- design-level properties ----------------------------------- *)
 \* refinement: every step of the API is a GraphEdit step, a whole-graph replacement, or stuttering on g
